@@ -30,6 +30,40 @@ def is_terminal_update(call: ast.Call) -> bool:
     return False
 
 
+def _fresh_selection(c: Ctx, u: Unit, g, call: ast.Call, recv: str) -> bool:
+    """The update runs in a loop over what `_get_applicable_handlers(<the same event>)` returned, selected in this function with no suspension point before the update."""
+    lp = q.enclosing(call, (ast.For,))
+    if lp is None:
+        return False
+    it = lp.iter
+    if isinstance(it, ast.Call) and isinstance(it.func, ast.Attribute) and it.func.attr in ('items', 'values', 'keys') and not it.args:
+        it = it.func.value
+    src = q.deref(u, it)
+    if not (isinstance(src, ast.Call) and call_name(src) == '_get_applicable_handlers' and src.args and U(src.args[0]) == recv):
+        return False
+    h = q.kw(call, 'handler')
+    names = {x.id for x in ast.walk(lp.target) if isinstance(x, ast.Name)}
+    if not (isinstance(h, ast.Name) and h.id in names):
+        return False
+    from sa.cfg import search
+
+    sel = [n for n in g.live_nodes() if any(x is src for x in q.node_calls(n))]
+    upd = set(g.nodes_of(q.stmt_of(call)))
+    if not sel:
+        return False
+    p = search([(sel[0], ())], is_target=lambda n, d: q.node_has_await(n), is_barrier=lambda n, d: False, edge_ok=lambda n, e, d: None if e.is_exc else d)
+    if p is None:
+        return True
+    # a suspension is reachable from the selection: fine only if no update is reachable from that suspension (the pre-creation loop has ended by then)
+    aw = [n for n in g.live_nodes() if q.node_has_await(n)]
+    for a in aw:
+        if search([(sel[0], ())], is_target=lambda n, d: n is a, is_barrier=lambda n, d: False, edge_ok=lambda n, e, d: None if e.is_exc else d) is None:
+            continue
+        if search([(a, ())], is_target=lambda n, d: n in upd, is_barrier=lambda n, d: n is sel[0], edge_ok=lambda n, e, d: None if e.is_exc else d) is not None:
+            return False
+    return True
+
+
 @ob('C08.1', 'DOM', "a result is (re)written to 'pending' only when the event has no result for that handler yet; pending child results are cancelled only if they are "
     "still 'pending' (never overwrite a started/terminal result)")
 def c08_1(c: Ctx) -> None:
@@ -47,6 +81,10 @@ def c08_1(c: Ctx) -> None:
             # the membership test on the same event's results
             tests = [n.ast.test for n in g.live_nodes() if n.kind == 'if' and isinstance(n.ast.test, ast.Compare) and isinstance(n.ast.test.ops[0], (ast.In, ast.NotIn))
                      and U(n.ast.test.comparators[0]) == f'{recv}.event_results']
+            if not tests and _fresh_selection(c, u, g, call, recv):
+                c.ok(where(u, call), "status='pending' written only for handlers that _get_applicable_handlers has just selected for this event: the selection leaves out every handler that "
+                     'already has a result (C08.7 / C01.5 evaluate that over the result states), and nothing suspends in between')
+                continue
             if not tests:
                 c.fail(u, f"status='pending' update without a `not in {recv}.event_results` test", "an existing (started/terminal) result can be reset to 'pending': a completed event regresses", node=call)
                 continue
@@ -272,7 +310,7 @@ def check_precreated_pending(c: Ctx) -> None:
         # the loop must cover exactly the mapping handed to _execute_handlers
         call = q.node_calls(ex[0], '_execute_handlers')[0]
         handed = q.kw(call, 'handlers') or (call.args[1] if len(call.args) > 1 else None)
-        src = U(lp.iter).split('.items()')[0].split('.keys()')[0]
+        src = U(lp.iter).split('.items()')[0].split('.keys()')[0].split('.values()')[0]
         if handed is not None and U(handed) == src and not any(isinstance(x, (ast.Break, ast.Return)) for x in ast.walk(lp)):
             c.ok(where(u, lp), f'pending results are created for every entry of {src}, the mapping handed to _execute_handlers')
         else:
